@@ -5,7 +5,7 @@ ROOT = os.path.dirname(os.path.dirname(os.path.abspath(__file__)))
 sys.path.insert(0, os.path.join(ROOT, 'lib'))
 import design_tables as T
 D = os.path.join(ROOT, 'docs', 'design')
-parts = [open(os.path.join(D, n)).read() for n in ('00_head.md', '01_system.md', '02_technique.md', 'translator.md', '03_properties.md', '04_tail.md', '05_appendix.md')]
+parts = [open(os.path.join(D, n)).read() for n in ('00_head.md', '01_system.md', '02_technique.md', 'translator.md', 'locks.md', '03_properties.md', '04_tail.md', '05_appendix.md')]
 MODELS = {'C01': 'Consensus, CommitConsensus, Discovery', 'C02': 'SeqRange, CommitMerkle', 'C03': 'CommitSM', 'C04': 'CommitSys (+ C01/C02/C03 models)',
           'C05': 'CommitRmnGate, CommitSM', 'C06': 'Rmn', 'C07': 'ExecMerge, Consensus', 'C08': 'Merkle, ExecReport', 'C09': 'ExecPending (+ ExecReport)',
           'C10': 'Determinism, Consensus, Transmit', 'C11': 'Roles', 'C12': 'Roles', 'C13': 'PanicSites, Rmn, Truncate', 'C14': 'Prices, Consensus',
